@@ -29,7 +29,7 @@ OBLIGATIONS = [
     # them), so these are thorough-tier only and end as inconclusive unless the imprecision does not strike
     ob('filt_1x2_ops3', ['NE=1', 'NX=2', 'NOPS=3'], unwindset={'next_evfilt.*': 4}, bounds='1 occurrence, <= 2 exceptions, 3 peek/pop calls', tiers=('thorough',)),
     ob('filt_2x1_ops3', ['NE=2', 'NX=1', 'NOPS=3'], unwindset={'next_evfilt.*': 4}, bounds='<= 2 occurrences, 1 exception, 3 peek/pop calls'),
-    ob('filt_3x1_ops4', ['NE=3', 'NX=1', 'NOPS=4'], unwindset={'next_evfilt.*': 5}, bounds='<= 3 occurrences, 1 exception, 4 peek/pop calls', timeout=1200, mem_gb=16),
+    ob('filt_3x1_ops4', ['NE=3', 'NX=1', 'NOPS=4'], unwindset={'next_evfilt.*': 5}, bounds='<= 3 occurrences, 1 exception, 4 peek/pop calls', timeout=1200, mem_gb=16, tiers=('thorough',)),
     ob('filt_2x2_ops3', ['NE=2', 'NX=2', 'NOPS=3'], unwindset={'next_evfilt.*': 5}, bounds='<= 2 occurrences, <= 2 exceptions, 3 peek/pop calls', timeout=1200, mem_gb=16, tiers=('thorough',)),
     ob('filt_3x2_ops4', ['NE=3', 'NX=2', 'NOPS=4'], unwindset={'next_evfilt.*': 6}, bounds='<= 3 occurrences, <= 2 exceptions, 4 calls', tiers=('thorough',), timeout=3400, mem_gb=30),
     ob('filt_2x3_ops3', ['NE=2', 'NX=3', 'NOPS=3'], unwindset={'next_evfilt.*': 6}, bounds='<= 2 occurrences, <= 3 exceptions, 3 calls', tiers=('thorough',), timeout=3400, mem_gb=30),
